@@ -268,10 +268,8 @@ fn cmd_lograce(req: &Value) -> Value {
 fn name_lines(log: Option<prqlc::debug::DebugLog>) -> Vec<Value> {
     let mut out = vec![];
     if let Some(log) = log {
-        match serde_json::to_value(&log) { Err(e) => out.push(json!(format!("SERERR {e}"))), Ok(_) => {} }
         if let Ok(Value::Object(m)) = serde_json::to_value(&log) {
             if let Some(Value::Array(es)) = m.get("entries") {
-                out.push(json!(format!("N {} {:?}", es.len(), es.iter().filter_map(|e| e.get("kind").and_then(|k| k.get("Message")).and_then(|v| v.get("text")).and_then(|t| t.as_str()).map(|t| t.chars().take(14).collect::<String>())).filter(|t| t.starts_with("verif")).collect::<Vec<_>>())));
                 for e in es {
                     if let Some(t) = e.get("kind").and_then(|k| k.get("Message")).and_then(|v| v.get("text")).and_then(|t| t.as_str()) {
                         if t.starts_with("verif:namegen ") || t.starts_with("verif:pq-names ") {
